@@ -88,7 +88,7 @@ func lifecycleOne(c *vlib.Ctx, st *ledgerStats, g *guard, ver int, size uint64, 
 		}
 		kind := "panics: " + lo.O.Panic
 		if lo.O.TimedOut {
-			kind = fmt.Sprintf("does not return within %v", deadline)
+			kind = fmt.Sprintf("has not returned after %v", longDeadline)
 		}
 		c.Violation("ledger/"+site+"/"+e.class(), fmt.Sprintf("%s %s on %s (contract formed with file size %d, v%d)", lo.Entry, kind, what, size, ver),
 			map[string]any{"entry": lo.Entry, "extreme": e, "panic": lo.O.Panic, "stack": lo.O.Stack, "block": mustJSON(m.b), "supplement": mustJSON(m.bs), "state": mustJSON(m.cs)})
